@@ -9,7 +9,10 @@ def run(res, a):
             {"VERIF_BIG_ARENA": "1"}, {"VERIF_NO_ARENA": "1"}, {"VERIF_BIG_ARENA": "1", "VERIF_RECLAIM_ON_FREE": "1"}]
     conc.run_conc(res, "C09", a.seed, a.tier, envs=envs if a.tier == "thorough" else envs[:5], nseeds_quick=24)
     # schedule-lockstep tie of coq/Model/Abandon.v (theorems: Properties/C09abandon.v) with the real allocator, same env variants
-    conc.run_abandon_lockstep(res, "C09", a.seed, a.tier, envs=envs if a.tier == "thorough" else envs[:5])
+    # (plus a variant with two sub-processes -- odd threads join a second one -- which only exists for the lockstep: the end-of-run
+    #  oracles of s_conc.c assume a single sub-process)
+    sub = [{"VERIF_SUBPROC": "1", "VERIF_RECLAIM_ON_FREE": "1"}, {"VERIF_SUBPROC": "1"}, {"VERIF_SUBPROC": "1", "VERIF_NO_ARENA": "1", "VERIF_RECLAIM_ON_FREE": "1"}]
+    conc.run_abandon_lockstep(res, "C09", a.seed, a.tier, envs=(envs + sub) if a.tier == "thorough" else (envs[:5] + sub[:1]))
     res.cov["rule"] = ("scheduler harness, mode exit: virtual threads terminate through mi_thread_done at random points while blocks they allocated are "
                        "still held by other threads, which later verify the byte pattern and free them (with reclaim-on-free on and off, arena and "
                        "OS-allocated segments); at quiescence a forced collect must leave no abandoned segment and no block. distinct = distinct schedules. "
